@@ -384,6 +384,9 @@ func (p *Pset) validatePartialSignature(
 	}
 
 	signatureLen := len(partialSignature.Signature)
+	if signatureLen == 0 {
+		return false, fmt.Errorf("empty partial signature")
+	}
 	sigHashType := partialSignature.Signature[signatureLen-1]
 	signatureDer := partialSignature.Signature[:signatureLen-1]
 
@@ -438,6 +441,9 @@ func (p *Pset) getHashAndScriptForSignature(
 		}
 
 		prevoutIndex := p.Inputs[inputIndex].PreviousTxIndex
+		if uint64(prevoutIndex) >= uint64(len(input.NonWitnessUtxo.Outputs)) {
+			return nil, nil, ErrInInvalidNonWitnessUtxo
+		}
 		prevout := input.NonWitnessUtxo.Outputs[prevoutIndex]
 		if input.RedeemScript != nil {
 			script = input.RedeemScript
@@ -464,7 +470,7 @@ func (p *Pset) getHashAndScriptForSignature(
 				return nil, nil, err
 			}
 			hash = unsignedTx.HashForWitnessV0(
-				inputIndex, pay.Script, input.WitnessUtxo.Value, sighash,
+				inputIndex, pay.Script, prevout.Value, sighash,
 			)
 		default:
 			var err error
